@@ -261,6 +261,127 @@ func init() {
 		panic(unsupported("context.AfterFunc on a cancellable context: " + ctx.Typ.String()))
 	})
 
+	regStub("context.WithTimeout", func(ex *Exec, fn *ssa.Function, args []Value) Value {
+		// deadlines never fire by themselves: the child is the parent, cancel is a no-op
+		return TupleV{args[0], &FuncV{Name: "cancel", Native: func(ex *Exec, a []Value) Value { return nil }}}
+	})
+	regStub("context.WithDeadline", exactStubs["context.WithTimeout"])
+	regStub("context.WithCancel", func(ex *Exec, fn *ssa.Function, args []Value) Value {
+		// a harness-cancellable context: Done() is a channel closed by cancel()
+		done := ex.newChan(0, types.NewStruct(nil, nil))
+		ctxT := ex.namedType("context", "cancelCtx")
+		o := ex.newCells(ctxT, ex.zero(ctxT), "cancelCtx")
+		ex.ghost["ctxdone:"+fmt.Sprint(o.ID)] = done
+		cancel := &FuncV{Name: "cancel", Native: func(ex *Exec, a []Value) Value {
+			if !done.closed {
+				done.closed = true
+				ex.sched.point()
+			}
+			return nil
+		}}
+		return TupleV{&IfaceV{Typ: types.NewPointer(ctxT), Val: &Ptr{Obj: o}}, cancel}
+	})
+	regStub("(*context.cancelCtx).Done", func(ex *Exec, fn *ssa.Function, args []Value) Value {
+		p := args[0].(*Ptr)
+		if c, ok := ex.ghost["ctxdone:"+fmt.Sprint(p.Obj.ID)].(*ChanV); ok {
+			return c
+		}
+		return (*ChanV)(nil)
+	})
+	regStub("(*context.cancelCtx).Err", func(ex *Exec, fn *ssa.Function, args []Value) Value {
+		p := args[0].(*Ptr)
+		if c, ok := ex.ghost["ctxdone:"+fmt.Sprint(p.Obj.ID)].(*ChanV); ok && c.closed {
+			return ex.cachedError("context canceled")
+		}
+		return &IfaceV{}
+	})
+	// ---- timers and tickers: owned by the harness, fired by vfTick / vfFireTimers
+	regStub("time.NewTicker", func(ex *Exec, fn *ssa.Function, args []Value) Value {
+		tt := ex.namedType("time", "Time")
+		c := ex.newChan(1, tt)
+		tk := ex.namedType("time", "Ticker")
+		v := ex.zero(tk).(TupleV)
+		v[0] = c
+		tickers, _ := ex.ghost["tickers"].([]*ChanV)
+		ex.ghost["tickers"] = append(tickers, c)
+		return &Ptr{Obj: ex.newCells(tk, v, "ticker")}
+	})
+	regStub("(*time.Ticker).Stop", noop)
+	regStub("(*time.Ticker).Reset", noop)
+	regStub("time.After", func(ex *Exec, fn *ssa.Function, args []Value) Value {
+		tt := ex.namedType("time", "Time")
+		c := ex.newChan(1, tt)
+		timers, _ := ex.ghost["timers"].([]*ChanV)
+		ex.ghost["timers"] = append(timers, c)
+		return c
+	})
+	suffixStubs["vfTick"] = func(ex *Exec, fn *ssa.Function, args []Value) Value {
+		// deliver one tick on every ticker created so far (dropped when the previous one is still pending, as in Go)
+		tickers, _ := ex.ghost["tickers"].([]*ChanV)
+		for _, c := range tickers {
+			if len(c.buf) < c.size {
+				c.buf = append(c.buf, ex.timeNow())
+			}
+		}
+		return nil
+	}
+	suffixStubs["vfFireTimers"] = func(ex *Exec, fn *ssa.Function, args []Value) Value {
+		timers, _ := ex.ghost["timers"].([]*ChanV)
+		for _, c := range timers {
+			if len(c.buf) < c.size {
+				c.buf = append(c.buf, ex.timeNow())
+			}
+		}
+		ex.ghost["timers"] = nil
+		return nil
+	}
+	suffixStubs["vfSettle"] = func(ex *Exec, fn *ssa.Function, args []Value) Value {
+		// let every other goroutine run until all of them are blocked or finished
+		for i := 0; i < 100000; i++ {
+			next := ex.sched.pickNext(true)
+			if next == nil {
+				return nil
+			}
+			ex.sched.switchTo(next)
+		}
+		panic(unsupported("vfSettle: other goroutines never block"))
+	}
+	suffixStubs["vfCancelContext"] = func(ex *Exec, fn *ssa.Function, args []Value) Value {
+		return exactStubs["context.WithCancel"](ex, fn, []Value{&IfaceV{}})
+	}
+	suffixStubs["vfSchedule"] = func(ex *Exec, fn *ssa.Function, args []Value) Value {
+		n, _ := args[0].(*Term).ConstVal()
+		ex.sched.symbolic = true
+		ex.sched.preempt = int(n)
+		return nil
+	}
+	suffixStubs["vfGo"] = func(ex *Exec, fn *ssa.Function, args []Value) Value {
+		ex.ghost["nextGoName"] = ex.argString(args[0])
+		ex.sched.spawn(args[1].(*FuncV), nil, nil)
+		return nil
+	}
+	suffixStubs["vfJoin"] = func(ex *Exec, fn *ssa.Function, args []Value) Value {
+		// wait until every goroutine started with vfGo/go has finished
+		s := ex.sched
+		s.block(func() bool {
+			for _, g := range s.gs[1:] {
+				if !g.done {
+					return false
+				}
+			}
+			return true
+		})
+		return nil
+	}
+	suffixStubs["vfPreemptOnAccess"] = func(ex *Exec, fn *ssa.Function, args []Value) Value {
+		if iv, ok := args[0].(*IfaceV); ok {
+			if p, ok := iv.Val.(*Ptr); ok && !isNilPtr(p) {
+				p.Obj.Watch = true
+			}
+		}
+		return nil
+	}
+
 	// ---- randomness
 	regStub("crypto/rand.Read", func(ex *Exec, fn *ssa.Function, args []Value) Value {
 		b := args[0].(*SliceV)
